@@ -1,17 +1,30 @@
 (* Non-vacuity of the refinement theorems of TW/WorkerAbs.v: the premises hold for a concrete program and a script that makes
    LP 0 roll back (a late time-0 event), cancel what it sent to LP 1 (already processed there: the notice rolls LP 1 back and
-   annihilates the message) and send it again; at the end nothing is pending and the processed sequences are the sequential ones. *)
+   annihilates the message) and send it again; at the end nothing is pending and the processed sequences are the sequential ones; and (the pp_ examples) a script with GVT
+   announcements after which fossil collection has released a prefix of every history. *)
 From Coq Require Import List ZArith NArith PArith Bool.
 From RS Require Import TW.App TW.Worker TW.WorkerSafety TW.WorkerOnceApp TW.WorkerOnceExample TW.AppAbs TW.WorkerAbs.
 Import ListNotations.
 Local Open Scope N_scope.
 
 Definition ex_ops : list wop := ex_script ++ [OpE 100].
-Example ex_premises : prog_valid ex_prog = true /\ types_okb ex_prog = true /\ forallb no_gvt_op ex_ops = true /\
+Example ex_premises : prog_valid ex_prog = true /\ types_okb ex_prog = true /\
   pend (fold_left (wstep ex_prog 1) ex_ops (w_init ex_prog)) = [].
 Proof. vm_compute. repeat split. Qed.
 (* what each LP has processed at the end: contents (time, type, payload) in order *)
 Example ex_processed :
-  map evc (processed (fold_left (wstep ex_prog 1) ex_ops (w_init ex_prog)) 0) = [(0, 3, []); (1, 1, [])] /\
-  map evc (processed (fold_left (wstep ex_prog 1) ex_ops (w_init ex_prog)) 1) = [(2, 2, [])].
+  map evc (retained (fold_left (wstep ex_prog 1) ex_ops (w_init ex_prog)) 0) = [(0, 3, []); (1, 1, [])] /\
+  map evc (retained (fold_left (wstep ex_prog 1) ex_ops (w_init ex_prog)) 1) = [(2, 2, [])].
 Proof. vm_compute. split; reflexivity. Qed.
+
+(* with GVT announcements and fossil collections: two LPs exchange one event back and forth; after two announcements the
+   events at times 1..6 have been released, the retained histories are the tails at and above the GVT (7), one event is pending *)
+Definition pp_prog : prog := mkProg 2 1 100 7 0 [] [(0, 1, 1, 0)] [(1, 0, mkRow [] [] [mkOut 3 1 1 1 0])].
+Definition pp_ops : list wop := [OpP 4; OpG 0; OpP 3; OpG 1; OpP 2].
+Definition pp_w : worker := fold_left (wstep pp_prog 1) pp_ops (w_init pp_prog).
+Example pp_premises : prog_valid pp_prog = true /\ types_okb pp_prog = true /\ k_err pp_w = false /\ k_gvt pp_w = 7%Z.
+Proof. vm_compute. repeat split. Qed.
+Example pp_retained :
+  map evc (retained pp_w 0) = [(7, 1, []); (9, 1, [])] /\ map evc (retained pp_w 1) = [(8, 1, [])] /\ map evc (pend pp_w) = [(10, 1, [])] /\
+  map (fun x => length (x_hist x)) (k_lps pp_w) = [4%nat; 2%nat].
+Proof. vm_compute. repeat split. Qed.
